@@ -13,7 +13,7 @@ use serde_json::json;
 use std::collections::BTreeMap;
 use std::time::{Duration, Instant};
 use vcore::{Run, util};
-use vschema::exec::{Case, Entry, Tally, run_case, schema_for, skeleton};
+use vschema::exec::{Case, Entry, Tally, run_case, run_undeclared_key, schema_for, skeleton};
 use vschema::grammar::{self, Ft};
 use vschema::values::{self, Fk, Fv};
 use vschema::{codec, model};
@@ -228,6 +228,14 @@ fn explore_type(ft: &Ft, aliens: &[Fv], mutate_all: bool, t: &mut Tally, values_
             };
             run_case(&case, entry, t);
         }
+        // a typed value one top-level key ahead of the schema (first and last valid value)
+        if vi == 0 || vi == n - 1 {
+            for extra in [Fv::U64(0), Fv::Text("x".into())] {
+                for first in [false, true] {
+                    run_undeclared_key(ft, &schema, v, &extra, first, t);
+                }
+            }
+        }
         if !mutate_all && !chosen.contains(&vi) {
             continue;
         }
@@ -299,16 +307,20 @@ fn main() {
         let v: serde_json::Value = serde_json::from_slice(&std::fs::read(&file).expect("read replay")).expect("json");
         let r = &v["replay"];
         let ft: FieldType = serde_json::from_value(r["type"].clone()).expect("type");
+        if let Some(pos) = r["undeclared_key"].as_str() {
+            let value = codec::dec(&r["value"]).expect("value");
+            let extra = codec::dec(&r["extra"]).expect("extra");
+            let mut t = Tally::default();
+            run_undeclared_key(&ft, &schema_for(&ft), &value, &extra, pos == "extra-key-first", &mut t);
+            t.merge_into(&mut run);
+            run.finish();
+        }
         let value = if let Some(name) = r["value"]["recipe"]["probe"].as_str() {
             budget_probes().into_iter().find(|p| p.name == name).expect("probe").value
         } else {
             codec::dec(&r["value"]).expect("value")
         };
-        let entry = match r["entry"].as_str() {
-            Some("try_from") => Entry::TryFrom,
-            Some("set_field_as") => Entry::SetAs,
-            _ => Entry::Set,
-        };
+        let entry = Entry::from_name(r["entry"].as_str().unwrap_or("set_field"));
         let schema = schema_for(&ft);
         let mut t = Tally::default();
         let desc = r["how"].as_str().unwrap_or("replay").to_string();
@@ -392,7 +404,7 @@ fn main() {
         "valid_values": values::valid_values(&grammar::keyed(Ft::I64, Ft::Vector)).iter().map(|v| format!("{v:?}")).collect::<Vec<_>>(),
         "single_mutations_of_second_value": values::mutations(&values::valid_values(&grammar::keyed(Ft::I64, Ft::Vector))[1], &values::aliens()).len(),
     }));
-    let grammar_txt = "FieldType grammar {Bool,I64,U64,F64,F32,Bytes,Text,Json,Vector; Option(T); Array([]); Array([T]); Array([T,U]); wildcard Map with Text/I64/Bytes key; keyed Map {a:T} and {a:T,b:Option(U)}}";
+    let grammar_txt = "FieldType grammar {Bool,I64,U64,F64,F32,Bytes,Text,Json,Vector; Option(T); Array([]); Array([T]); Array([T,U]); wildcard Map with Text/I64/Bytes key; keyed Map {a:T} and {a:T,b:Option(U)}; the open Map({})}";
     let reps = "{I64,F32,Vector,Json,Bytes; Option(I64), Array([F32]), Array([I64,Vector]), Map{i64*:Json}, {a:F32,b:Option(I64)}}";
     let (n1, n2, n3, n4) = (lv.l1.len(), lv.l2.len(), lv.l3.len(), lv.l4.len());
     run.rule(&if thorough {
@@ -401,10 +413,10 @@ fn main() {
         format!("{grammar_txt}: depth 1 and 2 complete ({n1} + {n2} types); depth 3 ({n3} types) = the 6 unary constructors over all depth-2 types + tuple / 2-key map over pairs of the 10 representative types {reps} touching depth 2; depth 4 ({n4} types) = unary constructors over the depth-3 types built from representative children + binary constructors over pairs of the 15 representative types (those 10 + the five constructors one level up) touching depth 3")
     });
     run.rule(
-        "per type: valid values cover every leaf boundary value (i64::MIN,-1,0,i64::MAX; 0,i64::MAX,i64::MAX+1,u64::MAX; +-0.0, subnormal, f32::MAX, 2.71, extremes, infinities; 11 bf16 edge bit patterns incl. NaN patterns; empty/non-empty containers; Null/absent for Option) at least once per container position; per valid value (quick, depth >= 3: for three values per type — second, middle and the fully populated last one; otherwise for every value) EVERY single mutation: each node swapped with each of 27 alien values (all variants, Null, out-of-range integers, NaN, non-read-back floats, read-back shapes), array drop-last/append, map remove-each-key/extra key of each key kind; each case through the three write entries Document::set_field, Document::try_from and Document::set_field_as (accepted = the entry returns a Document and it serialises to CBOR), accepted ones read back via DocumentOwned/try_from_doc and compared in the declared variant (bit-exact), then try_into / get_field_as; complexity-budget probes at limit / limit+1 (nodes 16384, array 4096, map 4096) and nesting towers of height 62..67, 70, 100, 128, 130, 140 (arrays, JSON objects, mixed JSON object/array, FieldValue maps, mixed FieldValue map/array) in typed, untyped, Json and shifted-depth positions; distinct = (type, valid value) pairs and budget probes",
+        "per type: valid values cover every leaf boundary value (i64::MIN,-1,0,i64::MAX; 0,i64::MAX,i64::MAX+1,u64::MAX; +-0.0, subnormal, f32::MAX, 2.71, extremes, infinities; 11 bf16 edge bit patterns incl. NaN patterns; empty/non-empty containers; Null/absent for Option) at least once per container position; per valid value (quick, depth >= 3: for three values per type — second, middle and the fully populated last one; otherwise for every value) EVERY single mutation: each node swapped with each of 30 alien values (all variants, Null, zero as U64 / I64 / -0.0, out-of-range integers, NaN, non-read-back floats, read-back shapes), array drop-last/append, map remove-each-key/extra key of each key kind; each case through the three write entries Document::set_field, Document::try_from and Document::set_field_as (accepted = the entry returns a Document and it serialises to CBOR), accepted ones read back via DocumentOwned/try_from_doc and compared in the declared variant (bit-exact), the field the accepted document holds compared with the field read back (variant-exact in undeclared positions for try_from / set_field_as, where the library chose the variants), then try_into / get_field_as; per type, for the first and the last valid value, Document::try_from of a typed value carrying one undeclared non-null top-level key (before / after the declared ones): refused, or the stored document converts back to the value written; complexity-budget probes at limit / limit+1 (nodes 16384, array 4096, map 4096) and nesting towers of height 62..67, 70, 100, 128, 130, 140 (arrays, JSON objects, mixed JSON object/array, FieldValue maps, mixed FieldValue map/array) in typed, untyped, Json and shifted-depth positions; distinct = (type, valid value) pairs and budget probes",
     );
     run.assume("validity is judged by the documented contract: declared variant or a documented read-back shape (U64<=i64::MAX for I64, CBOR/JSON f32 read-backs for F32, u16 bit-pattern arrays for Vector); anything offered to a Json slot other than the Json variant, NaN inside an untyped array and budget verdicts that differ between raw and canonical form are 'unspecified' (accept or reject, but must round-trip if accepted)");
-    run.assume("where the schema declares no variant (elements of Array([]), non-Json contents of a Json slot) equality is equality of the documented schema-less form (I64>=0 = U64, F32 = F64 widening, Vector = array of bit patterns, Json = its shape); under Option, Json(null) and Null are the same value");
+    run.assume("where the schema declares no variant (elements of Array([]), values of the open Map({}), non-Json contents of a Json slot) equality is equality of the documented schema-less form (I64>=0 = U64, F32 = F64 widening, Vector = array of bit patterns, Json = its shape) when the caller chose the variants (set_field), and variant-exact between the accepted document and the read-back when the library chose them (try_from, set_field_as); under Option, Json(null) and Null are the same value");
     run.assume("the stored form is cbor2 of the Document (what Storage::put writes); object-store / compression layers are covered by part `collection`");
     run.finish();
 }
